@@ -236,9 +236,11 @@ class Check:
             numpy.complex_ = numpy.complex128
         if not hasattr(numpy, "float_"):
             numpy.float_ = numpy.float64
-        src = os.path.join(REPO, "src")
-        if src not in sys.path:
-            sys.path.insert(0, src)
+        # VERIF_ARIM_SRC: development only (mutation experiments on a scratch copy of
+        # /repo/src); the registered commands never set it and use /repo/src.
+        src = os.environ.get("VERIF_ARIM_SRC") or os.path.join(REPO, "src")
+        sys.path[:] = [p for p in sys.path if os.path.realpath(p) != os.path.realpath(os.path.join(REPO, "src"))]
+        sys.path.insert(0, src)
         os.environ.setdefault("ARIM_VERIF", "1")
         import warnings
         warnings.filterwarnings("ignore")
